@@ -39,14 +39,14 @@ TReset == /\ Ev("reset")
           /\ parent' = E.parent /\ miner' = E.miner /\ nd' = E.nd /\ self' = E.self
           /\ E.stable = G /\ E.head = G /\ E.unconf = <<>> /\ E.chain = <<>>
           /\ known' = {G} /\ conf' = <<>> /\ stable' = G /\ head' = G
-TBlock == /\ Ev("InsertBlock") \/ Ev("RejectBlock")
+TBlock == /\ Ev("InsertBlock") \/ Ev("RejectBlock") \/ Ev("InsertBlockDup")
           /\ LET b == E.a[1] IN
              IF E.ok THEN /\ b \notin known /\ parent[b] \in known /\ H(b) > H(stable)   \* C02: parent known, above stable
                           /\ b \in KnownOf(E) /\ KnownOf(E) \subseteq known \cup {b}
                           /\ StepOK(E)
                      ELSE Same(E)                                                      \* a refused block changes nothing
           /\ Adopt(E)
-TConfirms == /\ Ev("InsertConfirms") \/ Ev("IgnoreConfirms")
+TConfirms == /\ Ev("InsertConfirms") \/ Ev("IgnoreConfirms") \/ Ev("InsertConfirmsDup")
              /\ KnownOf(E) \subseteq known
              /\ StepOK(E)
              /\ (~E.ok => Same(E))
